@@ -822,5 +822,6 @@ func vVirt(stbls []*mp4.StblBox, a []string) string {
 		res = fmt.Sprintf("ok/%d/%d/%d/%s/%s/%d/%s", mdatStart, mdatSize, w.n, strings.Join(ks, ","),
 			strings.Join(offs, "|"), out.Moov.Mvhd.Duration, strings.Join(tks, ","))
 	})
-	return "virt=" + res
+	oldSwm := uint64(len(in.head)) - inHdr + uint64(len(in.tail))
+	return fmt.Sprintf("virt=%d/%d/%s", base, oldSwm, res)
 }
